@@ -27,8 +27,8 @@ GNext ==
   \/ /\ More /\ \E o \in Pick(Objs), i \in Pick(Slots), f \in Pick({"name", "fp"}) : InputTo(o, i) /\ Log([op |-> "inp", o |-> o, i |-> i, form |-> f])
   \/ /\ More /\ \E r \in Pick({"ok", "err"}) : InputLine /\ Log([op |-> "line", o |-> inp[1], res |-> r])
   \/ /\ More /\ inp # <<>> /\ Drop /\ Log([op |-> "drop", o |-> inp[1]])
-  \/ /\ More /\ \E o \in Pick(Objs), i \in Pick(Slots), e \in Pick(1..6) : slot[<<o, i>>] # 0 /\ Err(o, i) /\ Log([op |-> "err", o |-> o, i |-> i, kind |-> e])
-  \/ /\ More /\ \E o \in Pick(Objs), i \in Pick(Slots), e \in Pick(1..10) : slot[<<o, i>>] # 0 /\ Use(o, i) /\ Log([op |-> "use", o |-> o, i |-> i, kind |-> e])
+  \/ /\ More /\ \E o \in Pick(Objs), i \in Pick(Slots), e \in Pick(1..12) : slot[<<o, i>>] # 0 /\ Err(o, i) /\ Log([op |-> "err", o |-> o, i |-> i, kind |-> e])
+  \/ /\ More /\ \E o \in Pick(Objs), i \in Pick(Slots), e \in Pick(1..16) : slot[<<o, i>>] # 0 /\ Use(o, i) /\ Log([op |-> "use", o |-> o, i |-> i, kind |-> e])
   \/ /\ More /\ \E o \in Pick(Objs) : Dest(o) /\ Log([op |-> "dest", o |-> o])
   \/ /\ ~More /\ UNCHANGED gvars
 GInit == Init /\ hist = <<>>
